@@ -33,6 +33,9 @@ type FaultSpec struct {
 	Kind    string `json:"kind"` // transport | gqlerrors | gqlerrors+data | node-null | empty | wrong-shape
 	// MatchID, when set, selects calls by their join id instead of by arrival order ("root" = calls without one)
 	MatchID string `json:"match_id,omitempty"`
+	// Path (kinds join-*): response keys from the call's own payload root (below "node" for a follow-up call) to
+	// the place a dependent step of the plan joins at; the otherwise correct answer is malformed exactly there
+	Path []string `json:"path,omitempty"`
 }
 
 // FedCase is an executed federated case with both oracles.
@@ -191,6 +194,13 @@ func RunFed(c *Ctx, in FedInput, timeout time.Duration, opts ...gateway.Option) 
 		fc.Invalid = "no such operation"
 		return fc, nil
 	}
+	if prioritisedService(in.Spec) && usesRootNode(doc, fc.Op.SelectionSet, map[string]bool{}) {
+		// Query.node is offered by every service and by the gateway, and a service's node resolves only the types
+		// that service declares: routed to a service by a configured priority, the field is a shared field on which
+		// the services do not agree, which the conventions clause of C01 excludes
+		fc.Invalid = "outside-conventions:root-node-routed-by-priority"
+		return fc, nil
+	}
 	fc.Classes = Classify(doc, fc.Op, fc.Store, in.Vars)
 	f, err := NewFed(in.Spec, fc.Store, opts...)
 	if err != nil {
@@ -269,4 +279,39 @@ func ShrinkFed(c *Ctx, in FedInput, fc *FedCase) (FedInput, *FedCase) {
 	}, 400)
 	_ = q
 	return best, bestFc
+}
+
+func prioritisedService(spec FedSpec) bool {
+	for _, p := range spec.Priorities {
+		for _, o := range spec.Order {
+			if p == o {
+				return true
+			}
+		}
+	}
+	return false
+}
+
+// usesRootNode: the operation selects the root field `node` (directly or through fragments on the root type)
+func usesRootNode(doc *ast.QueryDocument, ss ast.SelectionSet, seen map[string]bool) bool {
+	for _, sel := range ss {
+		switch sel := sel.(type) {
+		case *ast.Field:
+			if sel.Name == "node" {
+				return true
+			}
+		case *ast.InlineFragment:
+			if usesRootNode(doc, sel.SelectionSet, seen) {
+				return true
+			}
+		case *ast.FragmentSpread:
+			if d := doc.Fragments.ForName(sel.Name); d != nil && !seen[sel.Name] {
+				seen[sel.Name] = true
+				if usesRootNode(doc, d.SelectionSet, seen) {
+					return true
+				}
+			}
+		}
+	}
+	return false
 }
